@@ -221,6 +221,19 @@ impl Prop for C11 {
         if seqs != vec![last_hs_seq.wrapping_add(1)] {
             ex.fail("c11-auth-reply-seq", format!("reply to the handshake response (id {}) carries sequence ids {:?}", last_hs_seq, seqs));
         }
+        // "the client receives OK/ERR": the reply must be covered by a flush before the server
+        // waits for the next command (or ends)
+        let auth_end = {
+            let last = &d.msgs[auth_reply.first_msg + auth_reply.n_msgs - 1];
+            let p = &d.phys[last.first_phys + last.n_phys - 1];
+            p.start + p.len
+        };
+        let hs_end = o.msg_ends[0];
+        if let Some(op) = o.ops.iter().find(|op| op.kind == OpKind::Read && op.at >= hs_end && op.flushed < auth_end) {
+            ex.fail("c11-auth-reply-unflushed", format!("the server reads on (at client byte {}) while the reply to the handshake response is not flushed ({} of {} bytes)", op.at, op.flushed, auth_end));
+        } else if o.flushed < auth_end && !o.result.is_panic() {
+            ex.fail("c11-auth-reply-unflushed", format!("the connection ended with the reply to the handshake response unflushed ({} of {} bytes)", o.flushed, auth_end));
+        }
         match c.reject_auth {
             Some(tag) => {
                 match &auth_reply.units[..] {
